@@ -25,6 +25,7 @@ RULE = (
     "subset of randoms. Oracle: brute-force weight-product sums per (scale, bin, patch pair) with cells containing a pair within "
     "1e-12+1e-9*theta of an edge skipped. Non-trivial: expected DD has a non-zero cross-patch cell and a non-zero diagonal cell; "
     "distinct = case digest."
+    ' Extensions: one case in 40 has 128-300 patches on a lattice (bulk expanded from a drawn seed); one in 6 creates the first catalog from a patch-index column and gives it to the others as patch_centers (oracle: centres = direction of the weighted mean vector); half of the cases measure a second configuration (other closed side, other interior edges, edges extended or shortened) on the same catalog objects in the same process, judged by the same brute force.'
 )
 ASSUMPTIONS = [
     "angles are r/D(z_mid) with D from astropy for the unit's measure (no factor h), see C15",
